@@ -34,7 +34,7 @@ func init() {
 			"hop count 8..255 must saturate to 7 (DESIGN: Hops(Control2Hops(h)) == min(h,7)).",
 		Assume: []string{
 			"the bit table in enum/cemilayout/ref.go restates the cEMI L_Data layout of DESIGN.md Appendix C correctly",
-			"cemi.Pack is called the way the library's own callers do: buffer = make([]byte, cemi.Size(m)), zeroed (stale-buffer behaviour is property C15, not judged here)",
+			"cemi.Pack is called the way the library's own callers do (buffer = make([]byte, cemi.Size(m)), zeroed) and once more into a buffer of the same size that held 0xFF octets (a field counts as placed when the encoder writes it)",
 			"only exact layouts are decoded (length octet consistent with the octets present); truncated or over-long input is property C01/C02",
 			"the number of octets cemi.Unpack reports as consumed is counted (unpack_consumed_not_whole_layout), not judged: the statement speaks of fields only",
 			"IsGroupCommand on the values 16..255 (no 4-bit code) is counted in out_of_domain, not judged",
@@ -188,6 +188,25 @@ func judgeFrame(f *fields, st *stats) (out []outcome, nontrivial bool) {
 				add("C11:pack-layout:"+reg, "octet %d (%s) is 0x%02X, the specification puts 0x%02X there (compared bits 0x%02X)\n  packed    % x\n  reference % x",
 					i, reg, buf[i], ref[i], mask[i], clip(buf), clip(ref))
 				break
+			}
+		}
+		// a field is placed when the encoder writes it: the same frame into a buffer that held 0xFF
+		// octets must show the same specified bits (in a zeroed buffer a field the encoder forgot
+		// reads as 0 and goes unnoticed wherever 0 is the right value)
+		dirty := make([]byte, len(ref))
+		for i := range dirty {
+			dirty[i] = 0xFF
+		}
+		if p, pv := enumlib.Try(func() { cemi.Pack(dirty, build(f)) }); p {
+			add("C11:panic:Pack", "cemi.Pack into a used buffer panicked: %s", pv)
+		} else {
+			for i := range ref {
+				if d := (dirty[i] ^ ref[i]) & mask[i]; d != 0 && (buf[i]^ref[i])&mask[i] == 0 {
+					reg := region(len(f.Info), f.Control, i, d)
+					add("C11:pack-layout-in-a-used-buffer:"+reg, "packed into a buffer that held 0xFF octets, octet %d (%s) is 0x%02X; the specification puts 0x%02X there (compared bits 0x%02X): the encoder does not write that field\n  packed    % x\n  reference % x",
+						i, reg, dirty[i], ref[i], mask[i], clip(dirty), clip(ref))
+					break
+				}
 			}
 		}
 		if st != nil && f.Control && f.APCI > fTLow.max() {
